@@ -76,11 +76,18 @@ def run(case, target=None, extra_callbacks=(), step_cap=1500):
     def snap(system):
         snaps.append((len(system), len(system.events), float(system.t[-1])))
     r.a, r.P, r.evs, r.snaps = a, P, evs, snaps
-    for tgt in case.get("pre_targets", []):
+    for ev in evs:
+        ev.direction0 = ev.direction
+    for n_call, tgt in enumerate(case.get("pre_targets", [])):
         # the span is covered by several integrate() calls, all of them with the events monitored
         r.err = traj.run_integrate(a, np.float64(tgt), step_limit=step_cap, events=evs, callbacks=[snap] + list(extra_callbacks))
         if r.err is not None:
             return r
+        if n_call == 0 and case.get("dir_after"):
+            # the requested direction of an event function is changed (same function object) before the next call
+            for ev, d in zip(evs, case["dir_after"]):
+                if d is not None:
+                    ev.direction = d
     r.err = traj.run_integrate(a, target, step_limit=step_cap, events=evs, callbacks=[snap] + list(extra_callbacks))
     return r
 
